@@ -147,8 +147,15 @@ def run(p: Program, rep: Report, tier: str) -> None:
     # __delitem__ must remove ALL pairs of the key from _list
     di = mmm.methods.get("__delitem__")
     if di is not None:
-        src = ast.unparse(di.node)
-        if "if k != key" in src or "if not k == key" in src:
+        okf = False
+        for n in ast.walk(di.node):
+            if isinstance(n, ast.comprehension):
+                for c in n.ifs:
+                    if isinstance(c, ast.Compare) and len(c.ops) == 1 and isinstance(c.ops[0], ast.NotEq) and isinstance(c.left, ast.Name) and isinstance(c.comparators[0], ast.Name) \
+                            and {"key"} & {c.left.id, c.comparators[0].id} and isinstance(n.target, ast.Tuple) and n.target.elts and isinstance(n.target.elts[0], ast.Name) \
+                            and n.target.elts[0].id in (c.left.id, c.comparators[0].id):
+                        okf = True
+        if okf:
             rep.ok("R17.1", "__delitem__ keeps exactly the pairs whose key differs")
         else:
             rep.violation("R17.1", construct(di, text="filter"), where(di), "__delitem__ does not rebuild _list from the pairs whose key differs from the deleted key")
